@@ -77,6 +77,43 @@ func plan(seed int64, tier string) []vrt.Case {
 type ctx struct {
 	o    *vrt.Obs
 	seen map[string]int
+	// kept: the last few messages whose body was set, with the serialisation taken right after
+	// SetBody. A stored body must stay what it was when other bodies are set afterwards (on other
+	// messages): "the stored body equals the input" is not a property of the instant after the call.
+	kept []keptMsg
+}
+
+type keptMsg struct {
+	m    *fbb.Message
+	wire []byte
+	text string
+}
+
+const keepLast = 4
+
+// recheckKept re-serialises the messages set earlier and compares with what they were.
+func (c *ctx) recheckKept() {
+	for _, k := range c.kept {
+		var now []byte
+		if vrt.Guard(c.o, func() { now, _ = k.m.Bytes() }) {
+			continue
+		}
+		c.o.Count("earlier_bodies_rechecked", 1)
+		if !bytes.Equal(now, k.wire) {
+			c.violate("content:earlier-body-changed", k.text, "the stored body of a message changed after SetBody was called on ANOTHER message: first difference at byte %d of the serialisation (%s); its own text was %s",
+				firstDiff(now, k.wire), window(now, firstDiff(now, k.wire)), describe(k.text))
+		}
+	}
+}
+
+func (c *ctx) keep(m *fbb.Message, wire []byte, text string) {
+	if len(wire) > 1<<16 {
+		return // keep the harness's memory small; aliasing shows on small bodies just as well
+	}
+	c.kept = append(c.kept, keptMsg{m, wire, text})
+	if len(c.kept) > keepLast {
+		c.kept = c.kept[1:]
+	}
 }
 
 // violate records at most two instances per key and case; the (costly) description of the text is
@@ -196,6 +233,8 @@ func eval(c *ctx, text string) {
 		c.violate("error", text, "SetBody returned %v for representable text", setErr)
 		return
 	}
+	c.recheckKept()
+	c.keep(m, wire, text)
 	ref, err := msgref.Parse(wire)
 	if err != nil {
 		c.violate("unparseable", text, "the serialised message is not well-formed (%v) after SetBody", err)
